@@ -23,6 +23,12 @@ def plan(tier, seed):
             div.append('c08::Div<%s, %s, %s, 1>::reg()' % (tag, t, t))
         for l, r in [(S32, S32), (U32, U32), (S64, S32), (S8, S32), (U64, U64), (S64, S64)]:
             div.append('c08::Div<%s, %s, %s, 2>::reg()' % (tag, l, r))
+        # compound assignment (same-typed and differently typed operands, built-in rhs) and a built-in dividend
+        for l, r in [(S32, S32), (U32, U32), (S8, S8), (U8, U8), (S64, S64), (U64, U64), (S16, S16), (S32, S8), (S64, S32), (S8, S32), (U16, U32)]:
+            div.append('c08::Div<%s, %s, %s, 3>::reg()' % (tag, l, r))
+        for l, r in [(S32, S32), (U32, U32), (S8, S8), (S64, S32), (U64, U64)]:
+            div.append('c08::Div<%s, %s, %s, 4>::reg()' % (tag, l, r))
+            div.append('c08::Div<%s, %s, %s, 5>::reg()' % (tag, l, r))
         for l, r in [(t, t) for t in UPTO64] + [(S8, U8), (S32, S8), (U16, U64), (S64, S32), (U32, S64)]:
             ops.append('c08::Ops<%s, %s, %s>::reg()' % (tag, l, r))
     units = []
